@@ -1,6 +1,7 @@
 package main
 
 import (
+	"bytes"
 	"fmt"
 	"gopkg.in/src-d/hercules.v10/verifharness/hv"
 	"math/rand"
@@ -24,6 +25,15 @@ func main() {
 		for i := range data {
 			data[i] = alphabet[rng.Intn(len(alphabet))]
 		}
+		longAt, longLen := -1, 0
+		if it%250 == 249 {
+			// a very long line (minified sources): around the 64 KiB token limit of bufio.Scanner and beyond
+			longLen = []int{65535, 65536, 65537, 66000, 131072, 200001}[rng.Intn(6)]
+			longAt = rng.Intn(len(data) + 1)
+			nd := append([]byte{}, data[:longAt]...)
+			nd = append(nd, bytes.Repeat([]byte{'q'}, longLen)...)
+			data = append(nd, data[longAt:]...)
+		}
 		cb := &items.CachedBlob{Data: data}
 		cl, _ := cb.CountLines()
 		dmp := diffmatchpatch.New()
@@ -34,8 +44,17 @@ func main() {
 			lens = append(lens, fmt.Sprint(len(lines[r])))
 		}
 		var bs []string
-		for _, b := range data {
-			bs = append(bs, fmt.Sprint(int(b)))
+		for i := 0; i < len(data); i++ {
+			if i == longAt {
+				bs = append(bs, fmt.Sprintf("%d*%d", longLen, 'q')) // run-length token
+				i += longLen - 1
+				continue
+			}
+			bs = append(bs, fmt.Sprint(int(data[i])))
+		}
+		if cl != len(runes) && bytes.IndexByte(data, 0) < 0 {
+			hv.Fail("countlines-vs-diff", fmt.Sprintf(`{"bytes":%q}`, strings.Join(bs, ",")),
+				fmt.Sprintf("CountLines says %d, the diff splitter produces %d lines", cl, len(runes)))
 		}
 		b := strings.Join(bs, ",")
 		if b == "" {
